@@ -17,13 +17,13 @@ RULE = ('chains of <=4 commands over {Continue(f,*a,**k), Wait(f,msg,data)+resum
 ASSUMPTIONS = ['arguments are JSON-representable values (so equality after a pickle round trip is value equality), plus two resume values with an unusual == '
                '(equal to anything; == without a truth value) compared by their repr',
                'reference interpreter written from the property statement']
-REQUIRED = ['resume_with_pause', 'mutating_chains', 'continuations', 'kwargs_checked', 'resume_with_value', 'resume_without_value', 'restored_runs', 'terminal/finished', 'terminal/killed',
+REQUIRED = ['exit_window_restores', 'resume_with_pause', 'mutating_chains', 'continuations', 'kwargs_checked', 'resume_with_value', 'resume_without_value', 'restored_runs', 'terminal/finished', 'terminal/killed',
             'terminal/excepted', 'unsuccessful']
 BOUNDS = {'quick': 'all 2-command chains over the shape alphabet + 300 random chains of length 3-4; restore: all boundaries at once and each singly',
           'thorough': '3000 random chains, every subset of <=2 boundaries'}
 
 ARGSHAPES = [([], {}), ([1], {}), ([1, 'b', None], {}), ([], {'k': 3}), ([0], {'k': None, 'z': [1, 2]}), ([False, ''], {'kw': {'n': 1}}), ([[5, 6], {'m': 1}], {})]
-RESUMES = [[True, 'rv'], [True, None], [True, 0], [False, None], [True, {'d': [1]}], [True, '@ANYEQ'], [True, '@NOBOOL']]
+RESUMES = [[True, 'rv'], [True, None], [True, 0], [False, None], [True, {'d': [1]}], [True, '@ANYEQ'], [True, '@NOBOOL'], [True, '@T12'], [True, '@T0']]
 TERMINALS = [['value', None], ['value', 7], ['value', ''], ['stop', 'r', True], ['stop', 0, False], ['unsucc', 3], ['kill', 'bye'], ['raise', 'err']]
 
 
@@ -68,6 +68,14 @@ def gen_cases(tier, seed):
             crash_sets += [list(c) for c in itertools.combinations(range(nb), 2)]
         for cs in crash_sets:
             yield {'program': prog, 'resumes': resumes, 'crash': cs, 'ci': ci}
+        # a checkpoint taken in the window between the return of step k and the next state (from the hooks that run while the RUNNING
+        # state is left), then a restore: the restored process is still in that RUNNING state, so step k runs once more and the chain
+        # goes on from there exactly as before
+        # (not for steps that modify their arguments in place -- the second execution sees the modified ones -- nor for a step returning
+        # Wait, whose second execution would shift the harness's numbering of the resume values)
+        for k, st in enumerate(prog['steps']):
+            if not prog.get('mutate_args') and st['ret'][0] != 'wait':
+                yield {'program': prog, 'resumes': resumes, 'crash': [], 'ci': ci, 'exit_crash': k}
         if resumes:
             # a pause request arriving in the same loop iteration as the resume (before / after it), played afterwards
             for mode in ('pause-resume', 'resume-pause'):
@@ -83,17 +91,25 @@ def run_case(case):
         has, val = resumes[j] if j < len(resumes) else [True, 'extra']
         return [programs.special(copy.deepcopy(val))] if has else []  # ('@ANYEQ' / '@NOBOOL': values with an unusual ==)
 
-    r = persist.run_with_crashes(lambda loop: cls(loop=loop), case['crash'], resume_for_wait, resume_mode=case.get('resume_mode', 'plain'))
+    xc = case.get('exit_crash')
+    r = persist.run_with_crashes(lambda loop: cls(loop=loop), case['crash'], resume_for_wait, resume_mode=case.get('resume_mode', 'plain'),
+                                 exit_crashes=() if xc is None else (xc,))
     obs = {'continuations': 0, 'kwargs_checked': 0, 'resume_with_value': 0, 'resume_without_value': 0, 'restored_runs': 0, 'terminal': {},
            'unsuccessful': 0, 'resume_with_pause': int(bool(case.get('resume_mode')))}
     if r.get('inconclusive'):
-        return {'viol': [], 'obs': obs, 'inconclusive': r['inconclusive'], 'key': [prog, case['crash'], case.get('resume_mode')], 'nontrivial': False}
-    exp = programs.expected_run(prog, [tuple(x) for x in resumes])
+        return {'viol': [], 'obs': obs, 'inconclusive': r['inconclusive'], 'key': [prog, case['crash'], case.get('resume_mode'), case.get('exit_crash')], 'nontrivial': False}
+    exp = programs.expected_run(prog, [(has, programs._jsonable(programs.special(val))) for has, val in resumes])
     got = [[t[1], t[4], t[5]] for t in r['trace'] if t[0] == 'enter']
+    if xc is not None and r.get('restores'):
+        # the step that had returned when the checkpoint was taken is executed once more after the restore (the restored process is
+        # still in that RUNNING state); an implementation that remembers the returned command and goes straight on is right too
+        obs['exit_window_restores'] = 1
+        if got != exp['enters']:
+            exp = dict(exp, enters=exp['enters'][:xc + 1] + exp['enters'][xc:])
     viol = []
     V = judges.V
     shape = '>'.join(_shape(s['ret']) for s in prog['steps'])
-    mode = 'restored' if case['crash'] else case.get('resume_mode', 'plain')
+    mode = 'restored' if case['crash'] else ('restored-from-exit' if xc is not None else case.get('resume_mode', 'plain'))
     if got != exp['enters']:
         # locate first differing continuation
         k = next((i for i, (g, e) in enumerate(zip(got, exp['enters'])) if g != e), min(len(got), len(exp['enters'])))
@@ -126,7 +142,7 @@ def run_case(case):
         obs['resume_with_value' if has else 'resume_without_value'] += 1
     obs['restored_runs'] = 1 if r['restores'] else 0
     obs['mutating_chains'] = int(bool(prog.get('mutate_args')) and bool(r['restores']))
-    res = {'viol': viol, 'obs': obs, 'key': [prog, case['crash'], case.get('resume_mode')], 'nontrivial': len(got) > 1 or bool(obs['terminal'])}
+    res = {'viol': viol, 'obs': obs, 'key': [prog, case['crash'], case.get('resume_mode'), case.get('exit_crash')], 'nontrivial': len(got) > 1 or bool(obs['terminal'])}
     res['sample'] = {'chain': [s['ret'] for s in prog['steps']], 'resumes': resumes, 'crash_points': case['crash'], 'received': got,
                      'final': [r['views']['state'], r['views']['result']], 'restores': r['restores']}
     return res
